@@ -1,9 +1,11 @@
+pub mod c01;
 pub mod c06;
+pub mod common;
 pub mod c20;
 pub mod genpool;
 
 use crate::run::PropertyDef;
 
 pub fn all() -> Vec<PropertyDef> {
-    vec![c06::def(), c20::def()]
+    vec![c01::def(), c06::def(), c20::def()]
 }
